@@ -23,7 +23,8 @@ RULE_TEXT = (
     "patterns built from the tree's own names and absolute paths in the four glob shapes, and the equivalent "
     "regex_exclusions (escaped by the harness, exclusions=()); oracle = unfiltered scan restricted to entries none of "
     "whose path elements below module_path is excluded (an excluded directory prunes its subtree), imports among "
-    "survivors unchanged, glob run == regex run. Non-trivial (tree level): the tuple excludes >= 1 and < all modules."
+    "survivors unchanged, glob run == regex run; plus tuples of free-form regex_exclusions (un-anchored prefixes, capturing "
+    "groups, back-references, alternations) judged pattern by pattern with re.match. Non-trivial (tree level): the tuple excludes >= 1 and < all modules."
 )
 ASSUMPTIONS = [
     "patterns are matched against str(path) of the absolute, resolved path (as the scanner passes it)",
@@ -154,6 +155,26 @@ def check_case(spec: dict) -> dict:
     def glob_match(path):
         return any(M.glob_matches(g, path) for g in globs)
 
+    # free-form regexes: applied as regular expressions anchored at the start of the path (re.match), one by one
+    free = [r.replace("{BASE}", re.escape(base)) for r in spec.get("regexes", [])]
+    if free:
+        with Project(root, files, spec["dirs"]) as pr2:
+            free2 = [r.replace(re.escape(base), re.escape(pr2.path())) for r in free]
+            f_run = scan_outcome(pr2.path(), exclusions=(), regex_exclusions=tuple(free2))
+            base2 = pr2.path()
+        want_f = survivors(spec, base2, lambda path: any(re.match(r, path) is not None for r in free2))
+        want_fi = {(u, w) for u, w in all_imps if u in want_f and w in want_f}
+        if f_run[0] != "ok":
+            if want_f:
+                v("regex-free/scan-error", f"regexes {free2}: {f_run[1]}")
+        else:
+            gm, gi = set(f_run[1][0]), PS.drop_ancestor_imports(f_run[1][1])
+            if gm != want_f:
+                cls = "still-present" if gm - want_f else "wrongly-removed"
+                v(f"regex-free/modules-{cls}", f"regex_exclusions {spec['regexes']}: modules {sorted(gm)} != expected {sorted(want_f)}")
+            elif gi != want_fi:
+                v("regex-free/imports", f"regex_exclusions {spec['regexes']}: imports {sorted(gi)} != {sorted(want_fi)}")
+
     want_mods = survivors(spec, base, glob_match)
     want_imps = {(u, w) for u, w in all_imps if u in want_mods and w in want_mods}
     if plain[0] != "ok":
@@ -196,6 +217,23 @@ def cases(draw):
         }[form]
         globs.append(g)
     tree["globs"] = globs
+    regexes = []
+    for _ in range(draw(st.integers(0, 3))):
+        rel, is_dir = draw(st.sampled_from(ents))
+        name = rel.rsplit("/", 1)[-1]
+        stem = name[:-3] if name.endswith(".py") else name
+        form = draw(st.sampled_from(["prefix", "dir-prefix", "name-no-anchor", "group", "backref", "alt-group", "abs-prefix", "anchored"]))
+        regexes.append({
+            "prefix": ".*/" + re.escape(stem[: max(1, len(stem) - 1)]),
+            "dir-prefix": ".*/" + re.escape(rel.split("/")[0]),
+            "name-no-anchor": ".*" + re.escape(name),
+            "group": ".*/(" + re.escape(stem) + r")(\.py)?$",
+            "backref": r".*/(\w)\1[^/]*$",
+            "alt-group": ".*/(" + re.escape(stem) + "|zz)" + r"\.py$",
+            "abs-prefix": "{BASE}/" + re.escape(rel[: max(1, len(rel) - 2)]),
+            "anchored": "{BASE}/" + re.escape(rel) + "$",
+        }[form])
+    tree["regexes"] = regexes
     return tree
 
 
